@@ -36,7 +36,8 @@ def zoo():
             (1,), (), {1}, frozenset(), bytearray(b"x"), decimal.Decimal("1.5"), fractions.Fraction(1, 3),
             complex(1, 2), U4[1], U_NOT4[0], U_NOT4[1], DTS[1], DS[1], datetime.time(1, 2),
             datetime.timedelta(1), Opaque(), ..., MyStr("abc"), MyInt(3), MyList([1]), MyDict(a=1),
-            {None: 1, (1, 2): 2, 3: 3}, range(3), object, len]
+            {None: 1, (1, 2): 2, 3: 3}, range(3), object, len,
+            {float("nan"): 1, float("nan"): 2}, {Opaque(): 1, Opaque(): 2}, [float("nan"), float("nan")]]
 
 
 def perturb(v, rnd, zoo_n=3):
